@@ -20,10 +20,18 @@ EXPLANATION = ('states = distinct matrices (ENUM) / distinct canonical solver st
                'executions of the real Munkres.compute; every execution runs the implementation itself, '
                'so traces_validated_against_impl = number of executions')
 ASSUMPTIONS = ['costs finite and non-negative (the property\'s own precondition)',
-               'float comparison of totals within 1e-9',
-               'brute-force minimum over all injections is the trusted oracle']
+               'float comparison of totals within 1e-9 (within 1e-9 * scale in the scaled-magnitude family)',
+               'brute-force minimum over all injections is the trusted oracle',
+               'the caller\'s matrix counts as unmodified when its repr (values AND int/float types) is unchanged',
+               'PENDING-FINDING: uniform magnitudes whose smallest uncovered reduced cost exceeds sys.maxsize by '
+               'many orders (floats >= ~1e25, Python ints >= ~1e25) are enumerated by scaled_magnitudes but skipped: '
+               'Munkres.__find_smallest starts from sys.maxsize and the solve does not terminate',
+               'solver_reuse_bfs also replays solves of matrices with DISALLOWED cells that raise UnsolvableMatrix '
+               '(outside the statement, not judged) only to leave half-finished state before an in-scope solve']
 
 THIRD = 1.0 / 3
+PHI = (5 ** 0.5 - 1) / 2
+SQRT2 = 2 ** 0.5
 PALETTES = {
     'int012': [0, 1, 2],
     'bin': [0, 1],
@@ -31,6 +39,7 @@ PALETTES = {
     'grade5': [0.0, 1 - 0.1, 1 - THIRD, 1 - 0.3, 1.0],   # 1-g, g in {1, .1, 1/3, .3, 0}  -> {0,.9,2/3,.7,1}
     'grade4': [0.0, 0.9, 2.0 / 3, 0.7],
     'float_ties': [0.1, 0.2, 0.30000000000000004, 0.3],   # 0.1+0.2 != 0.3 : near-ties
+    'credit4': [0, 0.1, THIRD, 1],                        # PROFITS (credits) with int 0 and int 1, as ListGrader has them
 }
 
 
@@ -79,9 +88,10 @@ def dp_minmax(m):
     return out[0], out[1]
 
 
-def judge(m, solver, oracle=None):
+def judge(m, solver, oracle=None, tol=1e-9):
     """Run the real solver on matrix m and compare with the oracle.  Returns Result."""
     before = copy.deepcopy(m)
+    before_repr = repr(m)
     r, c = len(m), len(m[0])
     try:
         pairs = solver.compute(m)
@@ -89,11 +99,11 @@ def judge(m, solver, oracle=None):
         return Result('raised', True, viol('raises', 'compute raised %s: %s' % (type(e).__name__, e),
                                            'a matching', repr(e)))
     lo, hi = (oracle or brute)(before)
-    nontriv = abs(hi - lo) > 1e-9
-    if m != before:
-        return Result('mutated', nontriv, viol('input-modified', 'caller matrix modified', before, m))
+    nontriv = abs(hi - lo) > tol
+    if m != before or repr(m) != before_repr:
+        return Result('mutated', nontriv, viol('input-modified', 'caller matrix modified', before_repr, repr(m)))
     ok_shape = (isinstance(pairs, list) and len(pairs) == min(r, c)
-                and all(isinstance(p, tuple) and len(p) == 2 for p in pairs))
+                and all(isinstance(p, tuple) and len(p) == 2 and all(isinstance(x, int) for x in p) for p in pairs))
     if not ok_shape:
         return Result('badshape', nontriv, viol('incomplete-matching',
                                                 'expected %d (row, col) pairs' % min(r, c), min(r, c), pairs))
@@ -104,7 +114,7 @@ def judge(m, solver, oracle=None):
         return Result('invalid', nontriv, viol('invalid-matching', 'rows/cols repeated or out of range',
                                                None, pairs))
     tot = sum(before[i][j] for i, j in pairs)
-    if abs(tot - lo) > 1e-9:
+    if abs(tot - lo) > tol:
         return Result('suboptimal', nontriv, viol('not-minimal', 'total %r but minimum is %r' % (tot, lo),
                                                   lo, {'pairs': pairs, 'total': tot}))
     return Result('opt=%.6g' % lo, nontriv)
@@ -176,6 +186,12 @@ GENERATORS = [
     ('1/(i+j+1)', lambda i, j, r, c: 1.0 / (i + j + 1)),
     ('1-1/(i+j+1)', lambda i, j, r, c: 1 - 1.0 / (i + j + 1)),
     ('(3i+5j) mod 7 / 7', lambda i, j, r, c: ((3 * i + 5 * j) % 7) / 7.0),
+    # appended later (indices above are referenced by stored replay cases): equidistributed (Weyl) sequences, the
+    # enumerated stand-in for "uniform-float", "grade-like decimal credit" and "random integer" matrices
+    ('frac((i*c+j+1)*phi)', lambda i, j, r, c: ((i * c + j + 1) * PHI) % 1.0),
+    ('1-round(10*frac((i*c+j+1)*phi))/10', lambda i, j, r, c: 1 - round(10 * (((i * c + j + 1) * PHI) % 1.0)) / 10.0),
+    ('floor(100*frac((7i+13j+1)*sqrt2))', lambda i, j, r, c: int(100 * (((7 * i + 13 * j + 1) * SQRT2) % 1.0))),
+    ('1-g, g=(1,.7,1/3,.1,0)[(i+2j) mod 5]', lambda i, j, r, c: 1 - (1, 0.7, THIRD, 0.1, 0)[(i + 2 * j) % 5]),
 ]
 TRANSFORMS = ['as is', 'rows reversed', 'columns reversed', 'both reversed']
 
@@ -272,6 +288,191 @@ class TwoFreeRows4(MatrixFamily):
                             yield (4, 4, 'int012', idx)
 
 
+# ---------------------------------------------------------------------------------------------------------------
+# magnitudes: the same small matrices multiplied by one factor
+# ---------------------------------------------------------------------------------------------------------------
+SCALES = [
+    # (label, factor, pending)   entry = digit * factor, digit in {0, 1, 2}; int factor -> int matrix, float -> float
+    ('float 5e-324 (smallest denormal)', 5e-324, False),
+    ('float 1e-300', 1e-300, False),
+    ('float 1e-13 (below any absolute epsilon one would pick for costs in [0,1])', 1e-13, False),
+    ('float 1e-5', 1e-5, False),
+    ('float 3.0 (integral floats)', 3.0, False),
+    ('float 1e9', 1e9, False),
+    ('float 2**53 (last exactly-countable float)', float(2 ** 53), False),
+    ('float 1e18 (just below sys.maxsize)', 1e18, False),
+    ('float 1e19 (just above sys.maxsize)', 1e19, False),
+    ('int 10**9', 10 ** 9, False),
+    ('int 2**62 (2 * factor exceeds sys.maxsize)', 2 ** 62, False),
+    ('int 2**63 (sys.maxsize + 1)', 2 ** 63, False),
+    ('int 10**20', 10 ** 20, False),
+    # PENDING-FINDING: __find_smallest starts at sys.maxsize, so a smallest uncovered value above it is replaced by
+    # sys.maxsize; floats >= ~1e35 absorb the subtraction completely (endless loop), big ints / smaller floats need
+    # value / 2**63 rounds of step 6.  Reported; skipped until decided.
+    ('float 1e300', 1e300, True),
+    ('float 1e40', 1e40, True),
+    ('int 10**30', 10 ** 30, True),
+]
+
+
+class ScaledMagnitudes(Family):
+    """small {0,1,2} matrices times one factor from tiny denormals to beyond sys.maxsize"""
+    name = 'scaled_magnitudes'
+    timeout = 5.0
+    timeout_sig = 'non-termination'
+    rule = ('every r x c matrix, r, c <= 3, over {0, 1, 2} (quick: 3x3 over {0, 1} only) multiplied by each factor of %s; '
+            'totals compared within 1e-9 * factor; non-trivial = min != max over complete matchings; '
+            'factors marked pending (%s) are skipped (PENDING-FINDING: no termination)'
+            % ([x[0] for x in SCALES if not x[2]], [x[0] for x in SCALES if x[2]]))
+
+    def setup(self, tier):
+        from mitxgraders.helpers.munkres import Munkres
+        self.Munkres = Munkres
+
+    def cases(self, tier):
+        for si, (label, factor, pending) in enumerate(SCALES):
+            if pending:      # PENDING-FINDING
+                continue
+            for r in (1, 2, 3):
+                for c in (1, 2, 3):
+                    pal = 'bin' if (tier == 'quick' and r == 3 and c == 3) else 'int012'
+                    for idx in range(len(PALETTES[pal]) ** (r * c)):
+                        yield (si, r, c, pal, idx)
+
+    def matrix(self, case):
+        si, r, c, pal, idx = case
+        f = SCALES[si][1]
+        return [[d * f for d in row] for row in decode(r, c, pal, idx)]
+
+    def describe(self, case):
+        return {'factor': SCALES[case[0]][0], 'matrix': self.matrix(case)}
+
+    def check(self, case):
+        f = SCALES[case[0]][1]
+        res = judge(self.matrix(case), self.Munkres(), tol=1e-9 * f)
+        if res.violation is None:
+            res = Result('%s:%s' % ('int' if isinstance(f, int) else 'float',
+                                    'trivial' if not res.nontrivial else 'solved'), res.nontrivial)
+        return res
+
+
+# ---------------------------------------------------------------------------------------------------------------
+# profits -> costs -> matching (make_cost_matrix, as mitxgraders.listgrader.find_optimal_order chains them)
+# ---------------------------------------------------------------------------------------------------------------
+PROFIT_MODES = ['inversion_function = (top - x), top = largest palette value',
+                'inversion_function omitted (documented default: max(matrix) - x)',
+                'inversion_function=None passed explicitly']
+
+
+class ProfitToCost(Family):
+    name = 'profit_to_cost_chain'
+    timeout = 5.0
+    timeout_sig = 'non-termination'
+    rule = ('profit matrices: every shape r, c <= 3 over {0, 1, 2} (3x3 over {0, 1}) and every 2x2 / 2x3 / 3x2 over the credits '
+            '%s, converted by munkres.make_cost_matrix in each of %s, then solved by a fresh Munkres; oracle: every cost '
+            'equals the closed formula exactly, the result is a new list of new rows, the profit matrix is unchanged, and '
+            'the matching of the cost matrix is minimal by brute force (= maximal profit)' % (PALETTES['credit4'], PROFIT_MODES))
+
+    def setup(self, tier):
+        from mitxgraders.helpers import munkres
+        self.mod = munkres
+
+    def cases(self, tier):
+        for mode in range(len(PROFIT_MODES)):
+            for r in (1, 2, 3):
+                for c in (1, 2, 3):
+                    pal = 'bin' if (r == 3 and c == 3) else 'int012'
+                    for idx in range(len(PALETTES[pal]) ** (r * c)):
+                        yield (mode, r, c, pal, idx)
+            for (r, c) in ((2, 2), (2, 3), (3, 2)):
+                for idx in range(4 ** (r * c)):
+                    yield (mode, r, c, 'credit4', idx)
+
+    def describe(self, case):
+        return {'mode': PROFIT_MODES[case[0]], 'profit matrix': decode(*case[1:])}
+
+    def check(self, case):
+        mode, r, c, pal, idx = case
+        profit = decode(r, c, pal, idx)
+        before = repr(profit)
+        rows_before = list(profit)
+        top = max(PALETTES[pal]) if mode == 0 else max(max(row) for row in profit)
+        expected = [[top - v for v in row] for row in profit]
+        try:
+            if mode == 0:
+                cost = self.mod.make_cost_matrix(profit, lambda x: top - x)
+            elif mode == 1:
+                cost = self.mod.make_cost_matrix(profit)
+            else:
+                cost = self.mod.make_cost_matrix(profit, inversion_function=None)
+        except Exception as e:
+            return Result('raised', True, viol('make_cost_matrix:raises', 'make_cost_matrix raised %s: %s'
+                                               % (type(e).__name__, e), expected, repr(e)))
+        if repr(profit) != before or any(a is not b for a, b in zip(profit, rows_before)):
+            return Result('mutated', True, viol('make_cost_matrix:input-modified', 'profit matrix modified', before,
+                                                repr(profit)))
+        if not isinstance(cost, list) or repr(cost) != repr(expected):
+            return Result('wrongcost', True, viol('make_cost_matrix:wrong-cost', 'cost matrix is not inversion(profit)',
+                                                  expected, repr(cost)))
+        if cost is profit or any(a is b for a in cost for b in profit) or len(set(map(id, cost))) != len(cost):
+            return Result('aliased', True, viol('make_cost_matrix:aliased', 'cost matrix shares row objects', None, None))
+        res = judge(cost, self.mod.Munkres())
+        if res.violation is None and repr(profit) != before:
+            return Result('mutated', True, viol('make_cost_matrix:input-modified', 'profit matrix modified by the solve',
+                                                before, repr(profit)))
+        return res
+
+
+class DistinctValues(Family):
+    """all entries different: every dual adjustment has a different size"""
+    name = 'all_distinct_entries'
+    timeout = 5.0
+    timeout_sig = 'non-termination'
+    rule = ('every arrangement of the integers 0 .. r*c-1 in an r x c matrix for (r, c) = 2x2, 2x3, 3x2 and (thorough only) '
+            '3x3 (362 880 matrices); non-trivial = min != max over complete matchings')
+
+    def setup(self, tier):
+        from mitxgraders.helpers.munkres import Munkres
+        self.Munkres = Munkres
+
+    def cases(self, tier):
+        for (r, c) in ((2, 2), (2, 3), (3, 2)):
+            for k in range(_fact(r * c)):
+                yield (r, c, k)
+        if tier == 'thorough':
+            for k in range(_fact(9)):
+                yield (3, 3, k)
+
+    def matrix(self, case):
+        r, c, k = case
+        flat = _nth_perm(r * c, k)
+        return [flat[i * c:(i + 1) * c] for i in range(r)]
+
+    def describe(self, case):
+        return {'matrix': self.matrix(case)}
+
+    def check(self, case):
+        return judge(self.matrix(case), self.Munkres())
+
+
+def _fact(n):
+    out = 1
+    for i in range(2, n + 1):
+        out *= i
+    return out
+
+
+def _nth_perm(n, k):
+    """k-th permutation of 0..n-1 in lexicographic order (factorial number system)"""
+    items = list(range(n))
+    out = []
+    for i in range(n, 0, -1):
+        f = _fact(i - 1)
+        q, k = divmod(k, f)
+        out.append(items.pop(q))
+    return out
+
+
 ALPHABET = [
     [[5]],
     [[3, 1, 2]],
@@ -283,7 +484,34 @@ ALPHABET = [
     [[1, 2, 0], [0, 0, 2], [2, 1, 1], [0, 2, 2], [1, 0, 0]],
     [[7, 7, 7, 7], [7, 7, 7, 7], [7, 7, 7, 7], [7, 7, 7, 7]],
     [[1, 2, 3], [2, 4, 6], [3, 6, 9]],                              # classic step-6 example
+    # appended later.  'D' = munkres.DISALLOWED: these four raise UnsolvableMatrix out of step 6 and leave stars, a prime,
+    # covered lines (and, for the 5x5, Z0 = (3, 3)) on the instance; the raising solve itself is not judged
+    [[0, 'D'], [0, 'D']],
+    [[0, 0, 'D'], ['D', 'D', 0], ['D', 'D', 0]],
+    [[0, 0, 'D', 'D'], ['D', 'D', 0, 'D'], ['D', 'D', 0, 'D'], ['D', 'D', 'D', 0]],
+    [[1, 0, 0, 'D', 'D'], [0, 0, 'D', 'D', 'D'], ['D', 'D', 'D', 0, 0], ['D', 'D', 'D', 0, 1], ['D', 'D', 'D', 0, 1]],
+    [[0, 1], [0, 2]],                                               # 2x2 that needs step 6
+    [[0.9, 0.7], [2.0 / 3, 0.0], [0.7, 0.9]],                       # float, more rows than columns
+    [[1, 2], [0, 2], [2, 0], [1, 1]],                               # 4x2
+    [[0.0, 1e-13], [1e-13, 3e-13]],                                 # tiny magnitudes
+    [[10 ** 19, 2 * 10 ** 19], [2 * 10 ** 19, 5 * 10 ** 19]],      # ints above sys.maxsize
 ]
+
+
+def has_disallowed(m):
+    return any(x == 'D' for row in m for x in row)
+
+
+def solve_expecting_raise(m, solver, mod):
+    """a matrix with DISALLOWED cells that cannot be solved: outside the property; only its after-effects matter"""
+    real = [[mod.DISALLOWED if x == 'D' else x for x in row] for row in m]
+    try:
+        solver.compute(real)
+    except mod.UnsolvableMatrix:
+        return Result('raised UnsolvableMatrix (expected, not judged)', True)
+    except Exception as e:
+        return Result('raised %s (not judged)' % type(e).__name__, True)
+    return Result('returned (not judged)', True)
 
 
 class ReuseCtx(object):
@@ -292,16 +520,25 @@ class ReuseCtx(object):
 
 class SolverReuse(BFSFamily):
     name = 'solver_reuse_bfs'
-    rule = ('explicit-state search over sequences of compute(M) on ONE Munkres instance, M from a 10-matrix '
-            'alphabet (1x1, 1x3, 3x1, ties, float 3x3, step-6 4x4, 2x4, 5x3, all-equal, multiplicative 3x3); '
-            'state = canonical instance __dict__; every transition checked with the brute-force oracle and '
-            'against a fresh solver')
+    rule = ('explicit-state search over sequences of compute(M) on ONE Munkres instance, M from a %d-matrix '
+            'alphabet (1x1, 1x3, 3x1, ties, float 3x3, step-6 4x4, 2x4, 5x3, all-equal, multiplicative 3x3, four unsolvable '
+            'DISALLOWED matrices 2x2 .. 5x5 whose solve RAISES half-way, step-6 2x2, float 3x2, 4x2, tiny floats, ints above '
+            'sys.maxsize); state = canonical instance __dict__; every transition checked with the brute-force oracle and '
+            'against a fresh solver' % len(ALPHABET))
     depth_cap = 4
     workers = 4
 
     def setup(self, tier):
-        from mitxgraders.helpers.munkres import Munkres
-        self.Munkres = Munkres
+        from mitxgraders.helpers import munkres
+        self.mod = munkres
+        self.Munkres = munkres.Munkres
+
+    def solve(self, e, solver):
+        m = copy.deepcopy(ALPHABET[e])
+        if has_disallowed(m):
+            return solve_expecting_raise(m, solver, self.mod)
+        tol = 1e-9 * max(1e-13, min(1.0, max(max(row) for row in m)))
+        return judge(m, solver, tol=tol)
 
     def events(self, tier):
         return list(range(len(ALPHABET)))
@@ -312,8 +549,7 @@ class SolverReuse(BFSFamily):
         ctx.obs = []
         ctx.last = None
         for e in hist:
-            m = copy.deepcopy(ALPHABET[e])
-            ctx.last = judge(m, ctx.solver)
+            ctx.last = self.solve(e, ctx.solver)
             ctx.obs.append(ctx.last.outcome)
         return ctx
 
@@ -325,7 +561,7 @@ class SolverReuse(BFSFamily):
             v = dict(ctx.last.violation)
             v['sig'] = 'reuse:' + v['sig']
             return v
-        fresh = judge(copy.deepcopy(ALPHABET[ev]), self.Munkres())
+        fresh = self.solve(ev, self.Munkres())
         if fresh.outcome != ctx.last.outcome:
             return viol('reuse:differs-from-fresh', 'reused solver gives a different optimum than a fresh one',
                         fresh.outcome, ctx.last.outcome)
@@ -344,6 +580,11 @@ def families(tier):
         Structured(),
         ProductPermutations(),
         SolverReuse(),
+        ScaledMagnitudes(),
+        ProfitToCost(),
+        DistinctValues(),
+        MatrixFamily('rect_pad4_pad5_bin', [(1, 4), (4, 1), (2, 4), (4, 2), (3, 4), (4, 3), (1, 5), (5, 1), (2, 5), (5, 2)], 'bin',
+                     note=' (rectangular shapes padded to 4x4 / 5x5)'),
     ]
     if tier == 'thorough':
         fams += [
@@ -353,6 +594,7 @@ def families(tier):
             TwoOnes5('sq5_bin_two_ones', [(5, 5)], 'bin', tiers=('thorough',),
                      note=' restricted to exactly two ones per row'),
             MatrixFamily('rect24_grade4', [(2, 4), (4, 2)], 'grade4', tiers=('thorough',)),
+            MatrixFamily('rect35_bin', [(3, 5), (5, 3)], 'bin', tiers=('thorough',)),
             MatrixFamily('sq4_int012', [(4, 4)], 'int012', tiers=('thorough',),
                          note=' (all 43 046 721 matrices: the smallest exhaustive space with 4x4 partial costs)'),
         ]
